@@ -296,7 +296,8 @@ class ExpressionParser(ParserBase):
 
         if pstate.is_next(_minus):
             pstate.advance()
-            left_exp = pmbl.Product((-1, self.parse_expression(pstate, _PREC_UNARY)))
+            # A sign has lower precedence than exponentiation: ``-a**b`` is ``-(a**b)``
+            left_exp = pmbl.Product((-1, self.parse_expression(pstate, _PREC_TIMES)))
             return left_exp
         if pstate.is_next(_openpar):
             pstate.advance()
